@@ -269,7 +269,8 @@ fn concrete_archive(bytes: &[u8]) -> BinArchive {
     a
 }
 
-// @tier thorough
+// @tier offline
+// @offline not registered: needs > 40 GB / did not terminate in the trial runs (readers over heap-backed archives, DESIGN.md §2)
 // @timeout 3600
 // @mem 40
 // @bounds text-archive walk over concrete archives: empty; "hi\0\0" with and without key label; unterminated "abcd"; UTF-16 "A\0\0\0"; odd-length data (5 bytes) (solver-chosen arm); both formats
@@ -326,7 +327,8 @@ fn text_walk(sel: u8) {
     std::mem::forget(a);
 }
 
-// @tier thorough
+// @tier offline
+// @offline not registered: needs > 40 GB / did not terminate in the trial runs (readers over heap-backed archives, DESIGN.md §2)
 // @timeout 3600
 // @mem 40
 // @bounds text-archive walk over concrete archives: UTF-16 "A\\0\\0\\0" with key label; 5 bytes of Shift-JIS data (unaligned tail); 9 bytes of UTF-16 data ending inside a code unit (solver-chosen arm)
@@ -345,7 +347,8 @@ fn c05_text_archive_walk_b() {
     kani::cover!(sel == 6);
 }
 
-// @tier thorough
+// @tier offline
+// @offline not registered: needs > 40 GB / did not terminate in the trial runs (readers over heap-backed archives, DESIGN.md §2)
 // @timeout 3600
 // @mem 40
 // @bounds asset-binary and animation-set readers over the empty archive; animation-set reader over small archives with and without the table label (solver-chosen arm)
@@ -375,7 +378,8 @@ fn c05_asset_and_aset_readers() {
     kani::cover!(sel == 1);
 }
 
-// @tier thorough
+// @tier offline
+// @offline not registered: needs > 40 GB / did not terminate in the trial runs (readers over heap-backed archives, DESIGN.md §2)
 // @timeout 3600
 // @mem 40
 // @bounds asset-binary reader over concrete archives: 4 zero bytes; flags + a short record announcing more strings than the data holds; flags + an extended-form record cut short (solver-chosen arm)
@@ -447,7 +451,8 @@ fn c05_string_readers() {
     kani::cover!(sel == 3);
 }
 
-// @tier thorough
+// @tier offline
+// @offline not registered: needs > 40 GB / did not terminate in the trial runs (readers over heap-backed archives, DESIGN.md §2)
 // @timeout 3600
 // @mem 40
 // @bounds the string readers of the archive reader over small concrete archives: UTF-16 data ending inside a code unit, unterminated Shift-JIS data, a terminated UTF-16 string (solver-chosen arm)
